@@ -27,6 +27,9 @@ type scanWireCase struct {
 	// Silent: the servers stop answering scan requests after this many (0 = never);
 	// with End.Kind == "cancel" the context is then cancelled while Next is blocked.
 	SilentAfter int `json:"silent_after,omitempty"`
+	// Abandoned > 0: before the scan under test, that many other scans on the same client read one row
+	// and are closed early; the servers release their scanners but never answer the close requests
+	Abandoned int `json:"abandoned,omitempty"`
 }
 
 func scanWireRun(c scanWireCase) Outcome {
@@ -73,6 +76,33 @@ func scanWireInBubble(c scanWireCase) (out Outcome) {
 		drainClient()
 		cl.Stop()
 	}()
+	if c.Abandoned > 0 && len(spec.Rows) > 1 {
+		ss.HoldCloses = true
+		// (the faults scripted for the scan under test count ITS requests)
+		fo, sa := ss.FailOn, ss.SilentAfter
+		ss.FailOn, ss.SilentAfter = 0, 0
+		for i := 0; i < c.Abandoned; i++ {
+			call0, err := hrpc.NewScanRange(context.Background(), []byte("t"), nil, nil, hrpc.NumberOfRows(1))
+			if err != nil {
+				return viol("harness", "NewScanRange: %v", err)
+			}
+			sc0 := client.Scan(call0)
+			if _, err := sc0.Next(); err != nil {
+				return viol("unexpected-error", "abandoned scan %d: first Next: %v", i, err)
+			}
+			sc0.Close()
+		}
+		synctest.Wait()
+		used := ss.RequestCount()
+		if fo > 0 {
+			fo += used
+		}
+		if sa > 0 {
+			sa += used
+		}
+		ss.SetFaults(fo, sa)
+		out.Labels = append(out.Labels, "scans_closed_early_with_unanswered_closes")
+	}
 	ctx, cancel := context.WithCancel(context.Background())
 	defer cancel()
 	var extra []func(hrpc.Call) error
@@ -310,6 +340,8 @@ func scanWireGen(t *rapid.T, endings []string) scanWireCase {
 	c.End.CloseTwice = rapid.Bool().Draw(t, "twice")
 	if c.End.Kind == "cancel" && rapid.IntRange(0, 2).Draw(t, "blocked") == 0 {
 		c.SilentAfter = rapid.IntRange(1, 4).Draw(t, "silentafter")
+	} else if len(endings) > 1 && rapid.IntRange(0, 5).Draw(t, "abandoned") == 0 {
+		c.Abandoned = rapid.IntRange(1, 14).Draw(t, "nabandoned")
 	} else if rapid.IntRange(0, 4).Draw(t, "renew") == 0 {
 		c.End.RenewMS = rapid.SampledFrom([]int{5, 50, 1000}).Draw(t, "renewms")
 		c.End.SleepMS = rapid.SampledFrom([]int{0, 1, 7, 120, 3000}).Draw(t, "sleepms")
